@@ -12,6 +12,13 @@ Theorem C17_factory_total : forall code : Z, factory code = format code.
 Proof. exact factory_total. Qed.
 Print Assumptions C17_factory_total.
 
+(* "the class that the format assigns": the assignment is the format's, pinned in /verif/translator/format_codes.json — for every
+   pinned code the factory yields exactly the pinned class (nothing where the format has no decodable class), and no class the
+   format knows is created under any other code.  (With C17_ctor: a default-constructed object carries a pinned code of its class.) *)
+Theorem C17_factory_is_the_pinned_format : pinned_ok = true.
+Proof. exact factory_is_pinned_format. Qed.
+Print Assumptions C17_factory_is_the_pinned_format.
+
 Theorem C17_factory_unknown_codes : forall code : Z, ~ In code (map fst factory_table) -> factory code = None.
 Proof. exact factory_outside. Qed.
 Print Assumptions C17_factory_unknown_codes.
